@@ -145,6 +145,13 @@ def cases(tier, seed):
                 continue            # element writes through a read-only handle are C11's business
             for comp in completions(status, depth):
                 yield {'G': G, 'sched': list(seq + comp), 'modes': 'mixed'}
+    # ---- second mixed variant: r+ handle whose FIRST generator asks for 'r'; later users get the default (r+)
+    for G, L in ([(2, 6)] if tier == 'quick' else [(2, 7), (3, 6)]):
+        for seq, status, depth in enumerate_schedules(G, L):
+            if 'W' in seq or 'R' in seq:
+                continue
+            for comp in completions(status, depth):
+                yield {'G': G, 'sched': list(seq + comp), 'modes': 'mixed2'}
     if tier == 'thorough':
         rng = random.Random(f'C19:{seed}')
         for k in range(20000):
@@ -205,8 +212,8 @@ def execute(env, sched, modes=None):
     D = env.darr
     path = _arr['path']
     model = np.fromfile(path / 'arrayvalues.bin', dtype='<f8')
-    mixed = modes == 'mixed'
-    a = D.Array(path, accessmode='r' if mixed else 'r+')
+    mixed = modes in ('mixed', 'mixed2')
+    a = D.Array(path, accessmode='r' if modes == 'mixed' else 'r+')
     problems = []
     gens, gpos, ctxs = {}, {}, []
     rw = 0
@@ -214,7 +221,7 @@ def execute(env, sched, modes=None):
     for step, act in enumerate(sched):
         if act[0] == 'S':
             g = int(act[1])
-            gens[g] = a.iterchunks(**GPARAMS[g], **({'accessmode': [None, 'r+', 'r'][g]} if mixed else {}))
+            gens[g] = a.iterchunks(**GPARAMS[g], **({'accessmode': ([None, 'r+', 'r'] if modes == 'mixed' else ['r', None, 'r+'])[g]} if mixed else {}))
             gpos[g] = 0
         elif act[0] == 'A':
             g = int(act[1])
@@ -238,7 +245,7 @@ def execute(env, sched, modes=None):
         elif act[0] == 'C':
             gens[int(act[1])].close()
         elif act == 'E':
-            cm = a.open_array(accessmode='r+') if mixed and len(ctxs) == 0 else a.open_array()
+            cm = a.open_array(accessmode='r+') if modes == 'mixed' and len(ctxs) == 0 else a.open_array()
             cm.__enter__()
             ctxs.append(cm)
         elif act == 'X':
@@ -293,6 +300,6 @@ def run_case(case, env):
                 else 'wrong-value'
             res.fail(kind, f'schedule {" ".join(sched)}: {p}', schedule=sched)
     res.nontrivial = overlap(sched)
-    res.sig = ' '.join(sched) + (' /mixed-modes' if case.get('modes') else '')
+    res.sig = ' '.join(sched) + (f' /{case["modes"]}' if case.get('modes') else '')
     res.dim('access_modes', case.get('modes') or 'all r+')
     return res
